@@ -1646,6 +1646,8 @@ def parse_einsum_input(args, shapes=False, tuples=False, constants=None):
         eq, arrays = convert_from_interleaved(args)
     else:
         eq, *arrays = args
+        # like numpy, ignore any whitespace in the equation
+        eq = eq.replace(" ", "")
 
     # prepare shapes for caching
     if shapes:
